@@ -175,6 +175,7 @@ def run(P: Program, R: Report, tier: str) -> None:
         "the selection reaches rows, subgraph and mask only as its ancestor closure, the same closed set everywhere",
         "the closure adds nx.ancestors of every selected node and removes nothing",
     ]
+    R.decides += ['the parent of a row is never decided by truthiness of the parent id; the membership mask is np.isin without assume_unique / invert']
     R.not_decided += ["contents of the written files"]
     # the exporters and every facade of the same name that takes the selection (deprecated import locations forward it)
     exporters = [f for nm in ("export_to_csv", "export_to_geff") for f in P.find_funcs(nm) if f.parent is None and f.cls is None and "node_ids" in f.params]
